@@ -18,7 +18,7 @@ RULE = ('per run: (tls_enable, require_tls in {None,True,False}, require_host_au
 COMPONENTS = dict(tc.COMPONENTS, simulated=tc.COMPONENTS['simulated'] + ['TLS handshake and record layer (dsim.tls): pass-through, '
                   'handshake succeeds/fails as the plan says; certificates and the repo\'s match_id / policy code are real'])
 PROBES = ('cell.secured-session', 'cell.contact-failure', 'cell.clear-session', 'cell.tls-attempt-violates-policy', 'cell.handshake-failed',
-          'cell.peer-refuses', 'probe.cert_absent', 'probe.ip_mismatch', 'probe.uri_mismatch', 'probe.host_required', 'probe.node_required', 'probe.dial_by_name', 'probe.dns_mismatch', 'fault.tcp_rewrite')
+          'cell.peer-refuses', 'probe.cert_absent', 'probe.ip_mismatch', 'probe.uri_mismatch', 'probe.host_required', 'probe.node_required', 'probe.dial_by_name', 'probe.dns_mismatch', 'fault.tcp_rewrite', 'probe.empty_node_id')
 ASSUMPTIONS = ['TLS cryptography is not simulated: the stub hands the configured peer certificate to getpeercert()',
                'ssl.match_hostname (removed in Python 3.12) is provided by the facade, see DESIGN 1.2',
                'Agent.connect() always dials by resolved IP address; to reach the DNS-ID branch of the policy half of the runs create the active contact the way Agent.connect does but with the DNS name kept (Agent._bind_handler)']
@@ -35,19 +35,24 @@ def _gen_cert(ch, side, own_ip, own_nid):
     own_dns = 'host-%s.example' % side.lower()
     dnss = {0: [], 1: [own_dns], 2: ['other.example'], 3: ['other.example', own_dns]}[dnsk]
     urik = ch.weighted(side + '.uri', (3, 3, 2, 1))
-    uris = {0: [], 1: [own_nid], 2: ['dtn://other/'], 3: ['dtn://other/', own_nid]}[urik]
+    # an endpoint that announces an empty node id cannot have it in its certificate
+    named = own_nid or 'dtn://configured-elsewhere/'
+    uris = {0: [], 1: [named], 2: ['dtn://other/'], 3: ['dtn://other/', named]}[urik]
     return dict(ip=ips, dns=dnss, uri=uris)
 
 
 def gen(ch, tier):
     prof = dict(min_one=False, backpressure=False, max_bundles=1, liveness=False, allow_zero=False, horizon=5 * tcpcl_pair.SEC,
-                big=2000, max_queries=0)
+                big=2000, max_queries=0, ipv6=False)
     plan = tcpcl_pair.gen_plan(ch, prof)
     plan['scenario'] = 'tcpcl_tls'
     for side in ('A', 'P'):
         cfg = plan['cfg'][side]
         cfg['tls_enable'] = not ch.coin(side + '.notls', 1, 4)
         cfg['require_tls'] = ch.choice(side + '.req', (None, None, True, True, False))
+        if ch.coin(side + '.nonid', 1, 8):
+            # the default of an unconfigured agent: an empty node id in SESS_INIT
+            cfg['node_id'] = ''
         cfg['require_host_authn'] = ch.coin(side + '.rh', 1, 2)
         cfg['require_node_authn'] = ch.coin(side + '.rn', 1, 2)
         cfg['enable_test'] = []
@@ -168,6 +173,8 @@ def describe(run):
     certs = plan['tls']['certs']
     if certs['A'] is None:
         extra['probe.cert_absent'] = 1
+    if any(plan['cfg'][side]['node_id'] == '' for side in ('A', 'P')):
+        extra['probe.empty_node_id'] = 1
     if plan['tls'].get('dial_by_name'):
         extra['probe.dial_by_name'] = 1
         if certs['P'] and certs['P']['dns'] and 'host-p.example' not in certs['P']['dns']:
